@@ -735,6 +735,14 @@ class Spec:
         ev = lambda a, s=st: self.eval(ex, a, env, s, old)
         if fn == 'old':
             return self.eval(ex, args[0], self.old_env(env), old, old)
+        if fn == 'athead':
+            # value of the expression at the head of the loop whose `iteration` clause is being checked
+            hd = getattr(st, 'cur_head', None)
+            if hd is None:
+                raise EngineError('athead outside an iteration clause')
+            env2 = dict(env)
+            env2.update(hd[1])
+            return self.eval(ex, args[0], env2, hd[2], old)
         if fn in self.sf.defines:
             params, body, txt, pkg = self.sf.defines[fn]
             if len(params) != len(args):
@@ -1109,6 +1117,12 @@ class Spec:
         raise EngineError('bad type argument')
 
     def old_env(self, env):
+        ent = [k for k in env if k.startswith('$entry$')]
+        if not ent:
+            return env
+        env = dict(env)
+        for k in ent:
+            env[k[len('$entry$'):]] = env[k]
         return env
 
     def ite(self, ex, c, a, b):
